@@ -85,3 +85,110 @@ def run(script, seed):
 def scripts(seed, n):
     rng = random.Random(seed)
     return [gen_script(rng) for _ in range(n)]
+
+
+# ---- websocket session (EioQueueFineWs) -------------------------------------------------------
+
+def gen_ws_script(rng):
+    out = []
+    n = 2
+    ended = False
+    for _ in range(rng.randint(2, 5)):
+        g = []
+        for _ in range(rng.choice([1, 2, 2, 3])):
+            if n >= 12:
+                break
+            k = rng.choice(['send', 'send', 'send', 'disc', 'wsclose', 'wsgone'])
+            if k in ('wsclose', 'wsgone'):
+                if ended:
+                    continue
+                ended = True
+                g.append(k)
+            else:
+                g.append(k)
+                n += 1
+        if g:
+            out.append(g)
+    return out
+
+
+def _ws_active(w):
+    c = w.wss.get(1)
+    return c is not None and c.accepted and not c.ended and not c.peer_gone and \
+        not c.server_closed
+
+
+def run_ws(script, seed):
+    """One websocket-only session; reader = Proc 1 (the request task), writer = Proc 2 (the
+    thread it starts).  The log starts once the session is up (OPEN sent, writer waiting)."""
+    w = W.make_world('sync', {'ping_interval': 4000, 'ping_timeout': 2000, 'monitor': False},
+                     seed=seed, preempt=True)
+    facts = {'script': script, 'schedule_seed': seed}
+    try:
+        hub = w.hub
+        hub.child_proc = {(1, 'writer'): 2}
+        w.connect_plan = [('accept', False)]
+        rid = w.ws_request('transport=websocket&EIO=4')
+        w.reqs[rid].task.proc = 1
+        w.quiesce()
+        sid, so = w.sids[1], w.socks[1]
+        conn_inq = w.reqs[rid].conn.inq
+        hub.primlog = []
+        p = 2
+        for group in script:
+            for k in group:
+                if k in ('wsclose', 'wsgone') and not _ws_active(w):
+                    continue          # the socket is closed already: nothing can be sent on it
+                if k == 'wsclose':
+                    hub.primlog.append({'t': 0, 'op': 'env', 'item': 'close', 'q': so.queue})
+                    w.ws_frame(1, '1')
+                    continue
+                if k == 'wsgone':
+                    hub.primlog.append({'t': 0, 'op': 'env', 'item': 'gone', 'q': so.queue})
+                    w.ws_drop(1)
+                    continue
+                p += 1
+                if k == 'send':
+                    task = w.reqs[w.app_send(1)]['task']
+                elif k == 'disc':
+                    w.nreq += 1
+                    task = w.reqs[w.app_disconnect_with_id(1, w.nreq)]['task']
+                else:
+                    raise ValueError(k)
+                task.proc = p
+                hub.primlog.append({'t': p, 'op': 'start', 'item': k, 'q': so.queue})
+            w.quiesce()
+        log = []
+        for e in hub.primlog:
+            if e['op'] == 'ret':
+                log.append({'t': e['t'], 'op': 'ret', 'item': ''})
+                continue
+            if e['q'] is conn_inq:
+                # the writer closing the websocket wakes the reader through its frame queue
+                if e['op'] == 'put' and e['item'] is W._CLOSED and e['t'] == 2:
+                    log.append({'t': 2, 'op': 'ws_close', 'item': ''})
+                continue
+            if e['q'] is not so.queue:
+                continue
+            if e['t'] is None:
+                raise RuntimeError('queue primitive by a task outside the script: %r' % e['op'])
+            it = e['item']
+            if e['op'] in ('put', 'get'):
+                it = 'NIL' if it is None else w._pkt_token(1, it)
+            log.append({'t': e['t'], 'op': e['op'], 'item': it if it is not None else ''})
+        hub.primlog = None
+        snap = w.snapshot(1)
+        final = {'q': snap['ss'][0]['q'], 'unf': snap['ss'][0]['unf'],
+                 'closed': snap['ss'][0]['closed'], 'closing': snap['ss'][0]['closing'],
+                 'intable': sid in w.server.sockets,
+                 'ev': [e[5:] for e in snap['ev'][0] if e.startswith('disc:')],
+                 'deliv': [d[0] for d in snap['deliv'][0]], 'sent': w.sent.get(1, 0)}
+        return {'log': log, 'final': final}, facts
+    finally:
+        w.close()
+
+
+def ws_scripts(seed, n):
+    rng = random.Random(seed)
+    return [gen_ws_script(rng) for _ in range(n)]
+
